@@ -183,7 +183,9 @@ def r2(ctx, retsets):
         # unconditional inside the loop: the call's block post-dominates the loop body entry
         uncond = bool(lp) and all(fn.bdom(c.block.id, b) or fn.bpdom(c.block.id, b) or b == lp[0]["header"]
                                   for b in lp[0]["body"] if b != lp[0]["header"])
-        before = bool(lp) and rem and all(fn.bdom(lp[0]["header"], r.block.id) and r.block.id not in lp[0]["body"] for r in rem)
+        # (the per-family body may exist twice, as two copies of a helper: each copy's loop comes before that copy's release)
+        before = bool(lp) and bool(rem) and any(fn.bdom(lp[0]["header"], r.block.id) and r.block.id not in lp[0]["body"] for r in rem) and \
+            all(any(fn.bdom(l2["header"], r.block.id) and r.block.id not in l2["body"] for c2 in ns for l2 in loops if es.in_loop_body(l2, c2)) for r in rem)
         ctx.check(pol and tab and full and uncond and before, "C09.R2", "pfx_table_free:per-element", c.loc(),
                   "notify(removed) for index 0..data->len-1 of every node, unconditionally, before trie_remove releases the node"
                   if (pol and tab and full and uncond and before) else
